@@ -34,6 +34,7 @@ plan('C02',
      ],
      exhaustive={'quick': True, 'thorough': True},
      assumptions=COMMON_ASSUME + [
+         'the mixed-string universe contains keys that start with bytes >= 0x80; ascending key order is the order of strcmp (unsigned bytes), which is what std::map<std::string> gives the model',
          'exhaustive refers to the finite space the property names: ordered maps of size 0..3 (here 0..4 in quick, 0..6 in thorough) built from a 6-key universe in '
          'every insertion order, probed at every key position; everything else is generated',
          'while two handles to one container are live the histories only read and overwrite through them (insertion through one of two handles is the shared-handle '
